@@ -694,7 +694,13 @@ class RequestHandler(BaseProtocol, Generic[_Request]):
             resp = self.handle_error(request, 500, exc)
             resp, reset = await self.finish_response(request, resp, start_time)
         else:
-            resp, reset = await self.finish_response(request, resp, start_time)
+            try:
+                resp, reset = await self.finish_response(request, resp, start_time)
+            except Exception as exc:
+                # The response failed to start: answer like a failed handler
+                # (handle_error() raises if a part of it was sent already).
+                resp = self.handle_error(request, 500, exc)
+                resp, reset = await self.finish_response(request, resp, start_time)
         finally:
             self._request_in_progress = False
             if self._handler_waiter is not None:
